@@ -31,7 +31,14 @@ def e1_replay(cfg, rec):
     seed = worlds.seed_from_json(rec["seed"])
     history = [events.ev_from_json(e) for e in rec["history"]]
     ev = events.ev_from_json(rec["event"])
-    tracks = explore.rebuild(w, seed, history)
+    try:
+        tracks = explore.rebuild(w, seed, history)
+    except Exception as e:  # noqa: BLE001
+        if ev[0] != "construct":
+            raise
+        return sorted({explore.mk_violation(p, "construct-raises", "", w, seed, [], ev, "construct", type(e).__name__,
+                                            {"times": {}, "indeg": {}, "outdeg": {}, "edges": set()})["signature"]
+                       for p in cfg.props})
     pre = explore.StatePre(tracks, cfg)
     if ev[0] == "construct":
         sigs = []
@@ -159,14 +166,22 @@ def check_c06(tier):
 def check_c11(tier):
     q = tier == "quick"
     stages = struct_stages(tier, extra_kinds=("set_attr",))
+    # strokes that overwrite several nodes before a nested add-node is refused
+    stages.append(dict(name="seg-twodiv", worlds=["seg-2d"], seeds=["twodiv", "fix6"], depth=1 if q else 2,
+                       kinds=("paint", "add_node", "add_edge", "del_node")))
     stages.append(dict(name="noseg-axes", worlds=["noseg-2d-axes", "noseg-3d"], seeds=HAND_SEEDS, depth=1 if q else 2,
                        kinds=STRUCT_KINDS + ("set_attr",)))
     return run_e1("C11", tier, stages, dict(undo_probe=False), time_budget=budget(tier, 100, 1500))
 
 
 def check_c20(tier):
-    return run_e1("C20", tier, struct_stages(tier, extra_kinds=("set_attr",)), dict(undo_probe=True),
-                  time_budget=budget(tier, 100, 1500))
+    q = tier == "quick"
+    res = run_e1("C20", tier, struct_stages(tier, extra_kinds=("set_attr",)), dict(undo_probe=True),
+                 time_budget=budget(tier, 100, 1500))
+    # undo()/redo() with nothing to do, refused edits inside longer histories: the E2 sequences
+    # of C02 carry the refresh counter on every call
+    return merge_results(res, run_e2("C20", tier, "C02", [(M1, 4 if q else 6), (M2, 3 if q else 5), (M1B, 4 if q else 5)],
+                                     time_budget=budget(tier, 60, 900)))
 
 
 def check_c01(tier):
@@ -185,6 +200,26 @@ def check_c01(tier):
 SEG_KINDS = ("del_node", "del_edge", "add_edge", "add_node", "swap", "paint")
 
 
+def merge_results(a, b):
+    """combine the coverage of an E1 run and an E2 run of the same property"""
+    cov = dict(a["coverage"])
+    cb = b["coverage"]
+    for k in ("states", "transitions", "traces_validated_against_impl"):
+        cov[k] = cov.get(k, 0) + cb.get(k, 0)
+    cov["exhaustive"] = bool(cov.get("exhaustive")) and bool(cb.get("exhaustive"))
+    cov["caps"] = list(cov.get("caps", [])) + list(cb.get("caps", []))
+    cov["feature_switching_sequences"] = cb.get("menus")
+    cov["samples"] = list(cov.get("samples", [])) + list(cb.get("samples", []))[:2]
+    cov["rule"] = cov.get("rule", "") + " || " + cb.get("rule", "")
+    ra, rb = a["replay_fn"], b["replay_fn"]
+
+    def replay_fn(rec):
+        return rb(rec) if rec.get("engine") == "E2" else ra(rec)
+
+    return {"coverage": cov, "violations": a["violations"] + b["violations"], "replay_fn": replay_fn,
+            "assumptions": a.get("assumptions", [])}
+
+
 def check_c07(tier):
     q = tier == "quick"
     stages = [
@@ -192,6 +227,8 @@ def check_c07(tier):
              max_states=None if q else 6000),
         dict(name="seg2d-iou", worlds=["seg-2d"], seeds=HAND_SEEDS + ["fix6"], depth=1 if q else 2, kinds=SEG_KINDS),
         dict(name="seg3d-bfs", worlds=["seg-3d"], seeds=HAND_SEEDS, depth=1 if q else 2, kinds=SEG_KINDS),
+        dict(name="scaled", worlds=["seg-2d-aniso", "seg-2d-all"] if q else ["seg-2d-aniso", "seg-2d-all", "seg-3d-aniso"],
+             seeds=HAND_SEEDS + ["twodiv"], depth=1 if q else 2, kinds=SEG_KINDS),
     ]
     return run_e1("C07", tier, stages, dict(undo_probe=True), time_budget=budget(tier, 120, 2400))
 
@@ -206,9 +243,11 @@ def check_c08(tier):
         dict(name="3d", worlds=["seg-3d-aniso"] if q else ["seg-3d", "seg-3d-aniso", "seg-3d-all"], seeds=HAND_SEEDS,
              depth=1 if q else 2, kinds=mask_kinds if q else SEG_KINDS),
     ]
-    return run_e1("C08", tier, stages, dict(undo_probe=True), time_budget=budget(tier, 150, 3000),
-                  assumptions=["numpy reference for area/position uses rel_tol 1e-12; the from-scratch differential oracle is exact",
-                               "2D perimeter/circularity only with isotropic spacing (skimage limitation)"])
+    res = run_e1("C08", tier, stages, dict(undo_probe=True), time_budget=budget(tier, 150, 3000),
+                 assumptions=["numpy reference for area/position uses rel_tol 1e-12; the from-scratch differential oracle is exact",
+                              "2D perimeter/circularity only with isotropic spacing (skimage limitation)"])
+    return merge_results(res, run_e2("C08", tier, "C10", [(C08_TOGGLE, 3 if q else 4), (C08_TOGGLE_ANISO, 3 if q else 4)],
+                                     alias={"enabled-regionprops-wrong": "C08"}, time_budget=budget(tier, 60, 900)))
 
 
 def check_c09(tier):
@@ -218,7 +257,9 @@ def check_c09(tier):
         dict(name="aniso-given", worlds=["seg-2d-aniso", "seg-2d-fd"], seeds=HAND_SEEDS + ["fix6"], depth=1 if q else 2, kinds=SEG_KINDS),
         dict(name="3d", worlds=["seg-3d"], seeds=HAND_SEEDS, depth=1 if q else 2, kinds=SEG_KINDS),
     ]
-    return run_e1("C09", tier, stages, dict(undo_probe=True), time_budget=budget(tier, 150, 3000))
+    res = run_e1("C09", tier, stages, dict(undo_probe=True), time_budget=budget(tier, 150, 3000))
+    return merge_results(res, run_e2("C09", tier, "C10", [(C09_TOGGLE, 3 if q else 4)],
+                                     alias={"enabled-iou-wrong": "C09"}, time_budget=budget(tier, 60, 900)))
 
 
 # ---------------------------------------------------------------------------
@@ -242,6 +283,7 @@ def run_e2(prop, tier, runner, menus, assumptions=None, time_budget=None, keep_p
             v["menu_def"] = {k: (v2 if k != "items" else [events.ev_to_json(e) for e in v2]) for k, v2 in menu.items()}
             v["L"] = L
             v["inv_props"] = list(kwargs.get("inv_props", ()))
+            v["alias"] = kwargs.get("alias")
         vio.extend(v for v in r["violations"] if v["property"] in keep)
         # no merging: every sequence is a distinct history (state of the hidden stacks)
         cov["states"] += r["sequences"]
@@ -283,6 +325,8 @@ def e2_replay(rec):
     kwargs = {}
     if rec["runner"] == "C02":
         kwargs["inv_props"] = tuple(rec.get("inv_props", ()))
+    if rec.get("alias"):
+        kwargs["alias"] = rec["alias"]
     dead, vio, tag = runner(menu, path, len(path) == rec["L"], **kwargs)
     return sorted({v["signature"] for v in vio})
 
@@ -344,7 +388,7 @@ DISABLE = lambda *k: ("disable", tuple(k))  # noqa: E731
 
 C10_SEG = dict(name="C10-seg-div", world="seg-2d-core", seed="div", items=[
     ENABLE("iou"), DISABLE("iou"), ENABLE("area"), DISABLE("area"), ENABLE("circularity", "iou"),
-    ENABLE("nope"), DISABLE("iou", "nope"),
+    ENABLE("nope"), DISABLE("iou", "nope"), ENABLE("iou", "nope"),
     ("paint", 0, [[1], [2]], 0, 9, False, "part1"),
     ("paint", 1, [[0, 0, 1, 1], [1, 2, 1, 2]], 3, 9, False, "over2"),
     ("del_edge", 1, 3),
@@ -355,12 +399,35 @@ C10_SEG = dict(name="C10-seg-div", world="seg-2d-core", seed="div", items=[
 C10_SEG_FD = dict(C10_SEG, name="C10-seg-div-featuredict", world="seg-2d-fd")
 C10_NOSEG = dict(name="C10-noseg-div", world="noseg-2d", seed="div", items=[
     ENABLE("lineage_id"), DISABLE("lineage_id"), ENABLE("track_id"), DISABLE("track_id"),
-    ENABLE("area"), DISABLE("nope"),
+    ENABLE("area"), DISABLE("nope"), ENABLE("lineage_id", "nope"),
     ("del_edge", 1, 3), ("add_edge", 3, 4, True), ("del_node", 2),
     ("set_attr", 1, "track_id", 7), ("set_attr", 1, "lineage_id", 7), ("set_attr", 1, "time", 2),
     UNDO, REDO,
 ])
 C10_NOSEG_FD = dict(C10_NOSEG, name="C10-noseg-div-featuredict", world="noseg-2d-fd")
+
+
+_EN = lambda *k: ("enable", tuple(k))  # noqa: E731
+_DIS = lambda *k: ("disable", tuple(k))  # noqa: E731
+# histories that switch segmentation-derived features off and on around mask edits
+C08_TOGGLE = dict(name="C08-toggle-div", world="seg-2d-iso", seed="div", items=[
+    _DIS("area"), _EN("area"), _DIS("pos"), _EN("pos"), _DIS("circularity"), _EN("circularity"),
+    ("paint", 0, [[1], [2]], 0, 9, False, "part1"),
+    ("paint", 1, [[0, 0, 1, 1], [1, 2, 1, 2]], 3, 9, False, "over2"),
+    ("paint", 2, [[2, 2, 3, 3], [3, 4, 3, 4]], 5, 9, False, "new"),
+    ("undo",), ("redo",),
+])
+C08_TOGGLE_ANISO = dict(C08_TOGGLE, name="C08-toggle-aniso", world="seg-2d-aniso", items=[
+    it for it in C08_TOGGLE["items"] if not (it[0] in ("enable", "disable") and "circularity" in it[1])
+] + [_DIS("ellipse_axis_radii"), _EN("ellipse_axis_radii")])
+C09_TOGGLE = dict(name="C09-toggle-skip", world="seg-2d", seed="skip", items=[
+    _DIS("iou"), _EN("iou"),
+    ("paint", 0, [[0], [0]], 0, 9, False, "part1"),
+    ("paint", 2, [[0, 0], [1, 3]], 2, 9, False, "grow2"),
+    ("add_node", 4, 1, 1, False, "ok", [[0, 0, 1, 1], [0, 1, 0, 1]]),
+    ("del_node", 2),
+    ("undo",), ("redo",),
+])
 
 
 def check_c10(tier):
